@@ -70,6 +70,11 @@ impl Packet {
             return match packet_type {
                 PacketType::PingReq => Ok(Packet::PingReq(PingReq)),
                 PacketType::PingResp => Ok(Packet::PingResp(PingResp)),
+                // DISCONNECT without reason code and properties (normal disconnection)
+                PacketType::Disconnect => Ok(Packet::Disconnect(Disconnect::read(
+                    fixed_header,
+                    packet.freeze(),
+                )?)),
                 _ => Err(Error::PayloadRequired),
             };
         }
